@@ -366,6 +366,7 @@ def run(world, main, sched="fifo", step_cap=200000):
         except (Deadlock, StepCap) as e:
             err = e
         # teardown: faults off, cancel everything, drive to completion
+        world.log("TEARDOWN", len(getattr(world, "trace_events", ())))
         world.faults_by_op = {}
         if world.net is not None:
             world.net.fault_rates = {}
